@@ -401,8 +401,8 @@ Proof. induction a as [|x a IH]; intros [|y b]; simpl; try reflexivity. rewrite 
 
 Lemma ad_kind_cases nt :
   ad_kind nt = ADInt br8 \/ ad_kind nt = ADInt br16 \/ ad_kind nt = ADInt br32 \/ ad_kind nt = ADFloat \/ ad_kind nt = ADBad.
-Proof. unfold ad_kind. destruct (zmem nt ad8_types); auto. destruct (zmem nt ad16_types); auto.
-  destruct (zmem nt ad32_types); auto. destruct (_ || _); auto. Qed.
+Proof. unfold ad_kind. cbv zeta. destruct (zmem _ ad8_types); auto. destruct (zmem _ ad16_types); auto.
+  destruct (zmem _ ad32_types); auto. destruct (_ || _); auto. destruct (float_own_width _); auto. Qed.
 
 Lemma flagged_sym8 x y : flagged br8 x y = flagged br8 y x.
 Proof.
@@ -1040,4 +1040,201 @@ Proof.
     - intros a Ha. exists a. split; [|apply attr_agree_refl]. apply find_attr_self; [assumption|]. apply attr_in_In, A, Ha.
     - intros b Hb. rewrite (find_attr_self (f_gattrs f1) b N1) by (apply attr_in_In, B, Hb). discriminate. }
   split; [assumption|]. unfold hdiff_exit_m, spec_exit. rewrite E, S. reflexivity.
+Qed.
+
+(* ------------------------------------------------------------------------------------------ *)
+(** * Number-type flavours; the floating-point branches compute the difference in the element's own width *)
+
+Lemma ad_kind_flavour_lemma nt : ad_kind nt = ad_kind (Z.land nt DFNT_MASK).
+Proof.
+  unfold ad_kind, ad_type_key, DFNT_MASK. rewrite <- Z.land_assoc. change (Z.land 4095 4095) with 4095. reflexivity.
+Qed.
+
+Lemma hdp_routine_flavour_lemma : forall base flag, In base [20; 21; 22; 23; 24; 25] -> In flag [0; DFNT_NATIVE; DFNT_LITEND] ->
+  hdp_routine (Z.lor base flag) = hdp_routine base /\ hdp_routine base <> None.
+Proof.
+  intros base flag Hb Hf. simpl in Hb, Hf.
+  repeat (destruct Hb as [<-|Hb]; [repeat (destruct Hf as [<-|Hf]; [split; [vm_compute; reflexivity | vm_compute; discriminate]|]); contradiction|]).
+  contradiction.
+Qed.
+
+Section FloatFacts.
+  (* any value domain with subtraction, absolute value, zero, per-format rounding and a "representable in the
+     w-bit format" predicate satisfying the IEEE-754 facts used (gradual underflow: the rounded difference of two
+     numbers of one format is zero only if they are equal) *)
+  Variable V : Type.
+  Variables (vsub : V -> V -> V) (vabs : V -> V) (vzero : V) (rnd : Z -> V -> V) (F : Z -> V -> Prop).
+  Hypothesis rnd_sub_zero : forall w a b, F w a -> F w b -> (rnd w (vsub a b) = vzero <-> a = b).
+  Hypothesis abs_zero : forall x, vabs x = vzero <-> x = vzero.
+  Hypothesis rnd_id : forall w x, F w x -> rnd w x = x.
+  Hypothesis F_rnd : forall w x, F w (rnd w x).
+  Hypothesis F_abs : forall w x, F w x -> F w (vabs x).
+
+  Lemma float32_own_width_lemma a b : F adf32_elt_bits a -> F adf32_elt_bits b ->
+    (feval V vsub vabs rnd adf32_diff a b = vzero <-> a = b).
+  Proof.
+    intros Ha Hb. unfold adf32_diff, adf32_elt_bits in *. cbn [feval].
+    rewrite rnd_id by (apply F_abs, F_rnd). rewrite abs_zero. apply rnd_sub_zero; assumption.
+  Qed.
+
+  Lemma float64_own_width_lemma a b : F adf64_elt_bits a -> F adf64_elt_bits b ->
+    (feval V vsub vabs rnd adf64_diff a b = vzero <-> a = b).
+  Proof.
+    intros Ha Hb. unfold adf64_diff, adf64_elt_bits in *. cbn [feval].
+    rewrite abs_zero. apply rnd_sub_zero; assumption.
+  Qed.
+End FloatFacts.
+
+Lemma float_kinds_lemma : ad_kind DFNT_FLOAT32 = ADFloat /\ ad_kind DFNT_FLOAT64 = ADFloat /\
+  ad_kind (Z.lor DFNT_LITEND DFNT_FLOAT64) = ADFloat.
+Proof. repeat split; vm_compute; reflexivity. Qed.
+
+Lemma ad_float_refines_spec_lemma : forall nt a b m, ad_kind nt = ADFloat ->
+  array_diff_m nt (opts0 m) a b = (spec_count a b, spec_diff_positions 0 a b).
+Proof.
+  intros nt a b m K. unfold array_diff_m. rewrite K. unfold spec_count.
+  assert (G : forall a b i n pr, ad_float i a b n pr = (n + Z.of_nat (length (spec_diff_positions i a b)), rev pr ++ spec_diff_positions i a b)).
+  { clear. induction a as [|x a IH]; intros [|y b] i n pr; cbn [ad_float spec_diff_positions]; try (rewrite app_nil_r; f_equal; simpl; lia).
+    destruct (x =? y); rewrite IH; cbn [length rev]; [reflexivity|]. rewrite <- app_assoc. simpl. f_equal. lia. }
+  rewrite G. reflexivity.
+Qed.
+
+(* ------------------------------------------------------------------------------------------ *)
+(** * hdiff exits 0 exactly when two comparable files hold the same content *)
+
+Lemma ad_count_domain t v1 v2 m : elem_domain t v1 -> elem_domain t v2 -> ad_count t (opts0 m) v1 v2 = spec_count v1 v2.
+Proof.
+  intros [(lo & hi & R & H1)|K] D2.
+  - destruct D2 as [(lo' & hi' & R' & H2)|K'].
+    + rewrite R in R'. injection R' as <- <-.
+      unfold ad_count, array_diff_m. rewrite ad_kind_flavour_lemma.
+      apply (array_diff_count_lemma (Z.land t DFNT_MASK) lo hi v1 v2 m R H1 H2).
+    + exfalso. rewrite ad_kind_flavour_lemma in K'. destruct (kind_of_ranged _ _ _ R) as (br & Kb & _). congruence.
+  - unfold ad_count. rewrite (ad_float_refines_spec_lemma t v1 v2 m K). reflexivity.
+Qed.
+
+Lemma attrs_loop_zero : forall a1 a2, Forall2 attr_shape a1 a2 -> attrs_diff_loop a1 a2 = 0 -> a1 = a2.
+Proof.
+  induction 1 as [|x y a1 a2 (Hn & Ht & Hl) F IH]; intros E; [reflexivity|].
+  cbn [attrs_diff_loop] in E. pose proof (attrs_diff_loop_nonneg a1 a2) as NN.
+  rewrite Ht, Hl, Hn, !Z.eqb_refl, zlist_eqb_refl in E. cbn [negb orb] in E.
+  destruct (zlist_eqb (a_vals x) (a_vals y)) eqn:V; [|lia].
+  apply zlist_eqb_eq in V. f_equal; [destruct x, y; simpl in *; congruence | apply IH; lia].
+Qed.
+
+Lemma Forall2_length {A B} (R : A -> B -> Prop) l1 l2 : Forall2 R l1 l2 -> length l1 = length l2.
+Proof. induction 1; simpl; congruence. Qed.
+
+Lemma diff_sds_zero t d v1 a1 v2 a2 :
+  v1 <> [] -> length v1 = length v2 -> elem_domain t v1 -> elem_domain t v2 -> Forall2 attr_shape a1 a2 ->
+  diff_sds_m t d v1 a1 t d v2 a2 = 0 -> v1 = v2 /\ a1 = a2.
+Proof.
+  intros NE L D1 D2 FA E. unfold diff_sds_m in E. rewrite Z.eqb_refl, zlist_eqb_refl in E. cbn [negb] in E.
+  destruct v1 as [|x v1]; [contradiction|]. destruct v2 as [|y v2]; [discriminate|].
+  pose proof (ad_count_nonneg t (zprod d) (x :: v1) (y :: v2)) as N1.
+  unfold sds_attrs_diff in E. rewrite (Forall2_length _ _ _ FA), Z.eqb_refl in E. cbn [negb] in E.
+  pose proof (attrs_diff_loop_nonneg a1 a2) as N2.
+  split.
+  - apply (spec_count_zero_iff _ _ L). rewrite <- (ad_count_domain t _ _ (zprod d) D1 D2). lia.
+  - apply attrs_loop_zero; [assumption | lia].
+Qed.
+
+Lemma diff_gr_zero t c x y v1 v2 :
+  0 <= x * y * c -> Z.of_nat (length v1) = x * y * c -> Z.of_nat (length v2) = x * y * c ->
+  elem_domain t v1 -> elem_domain t v2 -> diff_gr_m t c x y v1 t c x y v2 = 0 -> v1 = v2.
+Proof.
+  intros P L1 L2 D1 D2 E. unfold diff_gr_m in E. rewrite !Z.eqb_refl in E. cbn [negb orb] in E.
+  destruct (zlist_eqb v1 v2) eqn:V; [apply zlist_eqb_eq; assumption|].
+  unfold gr_cmp_count in E.
+  rewrite (firstn_all2 v1) in E by (apply Nat2Z.inj_le; rewrite Z2Nat.id by lia; lia).
+  rewrite (firstn_all2 v2) in E by (apply Nat2Z.inj_le; rewrite Z2Nat.id by lia; lia).
+  rewrite (ad_count_domain t v1 v2 _ D1 D2) in E. apply spec_count_zero_iff; [apply Nat2Z.inj; lia | assumption].
+Qed.
+
+Lemma diff_obj_zero_eq o1 o2 : o_name o1 = o_name o2 -> comparable_body (o_body o1) (o_body o2) -> diff_obj o1 o2 = 0 -> o1 = o2.
+Proof.
+  destruct o1 as [n1 b1], o2 as [n2 b2]. cbn [o_name o_body]. intros <- C E. f_equal.
+  unfold diff_obj, obj_tag in E. cbn [o_body] in E.
+  destruct b1, b2; cbn [comparable_body] in C; try contradiction.
+  - destruct C as (<- & <- & NE & L & D1 & D2 & FA).
+    change (diff_sds_m nt dims vals attrs nt dims vals0 attrs0 = 0) in E.
+    destruct (diff_sds_zero _ _ _ _ _ _ NE L D1 D2 FA E) as [-> ->]. reflexivity.
+  - destruct C as (<- & <- & <- & <- & P & L1 & L2 & D1 & D2).
+    change (diff_gr_m nt ncomp xdim ydim vals nt ncomp xdim ydim vals0 = 0) in E.
+    rewrite (diff_gr_zero _ _ _ _ _ _ P L1 L2 D1 D2 E). reflexivity.
+  - destruct C as (<- & <-). change (diff_vs_m nrec fields vals nrec fields vals0 = 0) in E.
+    unfold diff_vs_m in E. rewrite Z.eqb_refl, (list_eqb_refl _ field_eqb_refl) in E. cbn [negb orb] in E.
+    destruct (zlist_eqb vals vals0) eqn:V; [|discriminate]. apply zlist_eqb_eq in V. subst. reflexivity.
+  - reflexivity.
+Qed.
+
+Lemma match_same_names_zero : forall l1 l2, map o_name l1 = map o_name l2 ->
+  Forall2 (fun a b => comparable_body (o_body a) (o_body b)) l1 l2 -> match_m l1 l2 = 0 -> l1 = l2.
+Proof.
+  intros l1 l2 N F. unfold match_m. rewrite (cmatch_same_names l1 l2 N). clear N0 || idtac.
+  revert N. induction F as [|a b l1 l2 C F IH]; intros N E; [reflexivity|].
+  cbn [map combine zsum entry_cost fst snd] in E. cbn [map] in N. injection N as Na N.
+  pose proof (diff_obj_nonneg a b).
+  assert (0 <= zsum (map entry_cost (map (fun p => Both (fst p) (snd p)) (combine l1 l2)))) by (apply zsum_nonneg, costs_nonneg).
+  f_equal; [apply diff_obj_zero_eq; [assumption | assumption | lia] | apply IH; [assumption | lia]].
+Qed.
+
+Lemma names_unique g x y : NoDup (map a_name g) -> In x g -> In y g -> a_name x = a_name y -> x = y.
+Proof.
+  induction g as [|a g IH]; intros ND Hx Hy E; [contradiction|]. simpl in ND. inversion ND as [|? ? Hn ND']; subst.
+  destruct Hx as [->|Hx], Hy as [->|Hy]; try reflexivity.
+  - exfalso. apply Hn. rewrite E. apply in_map. assumption.
+  - exfalso. apply Hn. rewrite <- E. apply in_map. assumption.
+  - apply IH; assumption.
+Qed.
+
+Lemma attr_agree_eq a b : a_name a = a_name b -> attr_agree a b = true -> a = b.
+Proof.
+  unfold attr_agree. intros N E. apply andb_true_iff in E. destruct E as [E E3]. apply andb_true_iff in E. destruct E as [E1 _].
+  apply Z.eqb_eq in E1. apply zlist_eqb_eq in E3. destruct a, b; simpl in *. congruence.
+Qed.
+
+Lemma attr_eqb_refl a : attr_eqb a a = true.
+Proof. unfold attr_eqb. rewrite !zlist_eqb_refl, Z.eqb_refl. reflexivity. Qed.
+
+Lemma In_attr_in a l : In a l -> attr_in a l = true.
+Proof. intros H. unfold attr_in. apply existsb_exists. exists a. split; [assumption | apply attr_eqb_refl]. Qed.
+
+Lemma gattr_zero_same g1 g2 : NoDup (map a_name g2) -> gattr_diff_m g1 g2 = 0 -> attrs_same g1 g2 = true.
+Proof.
+  intros N2 E. apply gattr_zero_iff in E. destruct E as [A B]. unfold attrs_same. apply andb_true_iff. split.
+  - apply forallb_forall. intros a Ha. destruct (A a Ha) as (b & Fb & Ag). destruct (find_attr_in _ _ _ Fb) as [Hb Hn].
+    rewrite (attr_agree_eq a b (eq_sym Hn) Ag). apply In_attr_in. assumption.
+  - apply forallb_forall. intros b Hb. specialize (B b Hb).
+    destruct (find_attr (a_name b) g1) as [a|] eqn:Fa; [|contradiction].
+    destruct (find_attr_in _ _ _ Fa) as [Ha Hn]. destruct (A a Ha) as (b' & Fb & Ag).
+    destruct (find_attr_in _ _ _ Fb) as [Hb' Hn'].
+    assert (b' = b) by (apply (names_unique g2); [assumption | assumption | assumption | congruence]). subst b'.
+    rewrite <- (attr_agree_eq a b (eq_sym Hn') Ag). apply In_attr_in. assumption.
+Qed.
+
+Lemma obj_list_eqb_refl : forall l, list_eqb obj_eqb l l = true.
+Proof.
+  apply list_eqb_refl. intros [n b]. unfold obj_eqb. cbn [o_name o_body]. rewrite zlist_eqb_refl. simpl.
+  destruct b; simpl; rewrite ?Z.eqb_refl, ?zlist_eqb_refl; simpl; try reflexivity.
+  - apply (list_eqb_refl _ attr_eqb_refl).
+  - rewrite (list_eqb_refl _ field_eqb_refl). reflexivity.
+Qed.
+
+Lemma hdiff_exit_iff_same_content_lemma : forall f1 f2, comparable f1 f2 ->
+  (hdiff_m f1 f2 = 0 <-> same_content f1 f2 = true) /\ hdiff_exit_m f1 f2 = spec_exit f1 f2.
+Proof.
+  intros f1 f2 (N & F & N1 & N2).
+  assert (I : hdiff_m f1 f2 = 0 <-> same_content f1 f2 = true).
+  { split.
+    - intros E. unfold hdiff_m in E.
+      pose proof (match_m_nonneg (f_objs f1) (f_objs f2)). pose proof (gattr_diff_nonneg (f_gattrs f1) (f_gattrs f2)).
+      unfold same_content. apply andb_true_iff. split.
+      + rewrite (match_same_names_zero _ _ N F) by lia. apply obj_list_eqb_refl.
+      + apply gattr_zero_same; [assumption | lia].
+    - intros S. apply (same_content_exit0_lemma f1 f2 N1 N2 S). }
+  split; [assumption|]. unfold hdiff_exit_m, spec_exit.
+  destruct (Z.eqb_spec (hdiff_m f1 f2) 0) as [E|E], (same_content f1 f2) eqn:S; try reflexivity.
+  - apply I in E. congruence.
+  - exfalso. apply E. apply I. reflexivity.
 Qed.
